@@ -567,7 +567,7 @@ func replace(root *Value, p Path, nv *Value) *Value {
 }
 
 // Faults: the schema faults applied at a path.
-var Faults = []string{"null", "string", "number", "bool", "array", "object", "empty", "absent", "duplicate", "oversized", "negative", "nested-self", "prefix-half", "prefix-one", "suffix-cut"}
+var Faults = []string{"null", "string", "number", "bool", "array", "object", "empty", "absent", "duplicate", "oversized", "negative", "nested-self", "prefix-half", "prefix-one", "suffix-cut", "null-run-head", "null-run-inside", "all-null"}
 
 // ApplyFault returns a mutated deep copy of root (root itself is untouched). ok=false when the fault does not apply at p.
 func ApplyFault(root *Value, p Path, fault string, k int) (*Value, bool) {
@@ -650,6 +650,31 @@ func ApplyFault(root *Value, p Path, fault string, k int) (*Value, bool) {
 			return replace(c, p, N("123456789012345678901234567890123456789012345678901234567890")), true
 		}
 		return nil, false
+	case "null-run-head", "null-run-inside", "all-null":
+		// runs of adjacent null entries in an array (a single null is the "null" fault at an element path): two at
+		// the head, three after the first element, or every element null
+		if val.Kind != Array {
+			return nil, false
+		}
+		switch fault {
+		case "null-run-head":
+			val.Elems = append([]*Value{Nul(), Nul()}, val.Elems...)
+		case "null-run-inside":
+			if len(val.Elems) == 0 {
+				return nil, false
+			}
+			rest := append([]*Value{}, val.Elems[1:]...)
+			val.Elems = append(append([]*Value{val.Elems[0], Nul(), Nul(), Nul()}, rest...))
+		default:
+			if len(val.Elems) < 2 {
+				val.Elems = []*Value{Nul(), Nul()}
+			} else {
+				for i := range val.Elems {
+					val.Elems[i] = Nul()
+				}
+			}
+		}
+		return c, true
 	case "prefix-half", "prefix-one", "suffix-cut":
 		// a string cut short: its first half, its first character, or all but its last character (a date without
 		// its time, a version without its patch level, an identifier without its prefix's tail)
